@@ -8,6 +8,7 @@
 From Coq Require Import List ZArith Bool Arith Lia.
 From RecordUpdate Require Import RecordUpdate.
 From FV Require Import Kernel Accounting World.
+From FV Require Factory FactoryInv FactoryLevel.
 Import ListNotations.
 Open Scope Z_scope.
 
@@ -39,3 +40,21 @@ Example C18_witness :
   let a := fold_left lacc_step l {| l_sum := 0; l_t := 0; l_n := 0 |} in
   l_sum a + l_n a * (10 - l_t a) = 12 /\ tick_sum (level_at 0 l) 0 10 = 12.
 Proof. vm_compute. auto. Qed.
+
+(* every factory configuration whose edges start empty with a recorded level of 0, every number of
+   kernel steps: unless the run has crashed, the level each edge's accumulator is integrating is the
+   true number of items in the edge -- the level is re-recorded at every change of occupancy
+   (theories/Factory/FactoryLevel.v, lifted through every process block) *)
+Theorem C18_recorded_level_is_true_level :
+  forall nodes edges order n, Forall FactoryLevel.EOK edges ->
+    let w := FactoryInv.iter_fstep n (Factory.mk_world nodes edges order) in
+    wcrash w = None ->
+    forall i ed, nth_error (wedges w) i = Some ed ->
+      elastn ed = Z.of_nat (length (StoreB.transit (est ed)) + length (StoreB.ready (est ed))).
+Proof. exact FactoryLevel.recorded_level_is_true_level. Qed.
+Print Assumptions C18_recorded_level_is_true_level.
+
+Theorem C18_fresh_edge_ok :
+  forall ed, StoreB.transit (est ed) = [] -> StoreB.ready (est ed) = [] -> elastn ed = 0 -> FactoryLevel.EOK ed.
+Proof. exact FactoryLevel.fresh_edge_ok. Qed.
+Print Assumptions C18_fresh_edge_ok.
